@@ -384,6 +384,15 @@ func (w *World) Mutate(f []string) (string, []Write) {
 		err = w.P.Unpin(ctx, w.Cids[at(1)], at(2) == 1)
 	case "update":
 		err = w.P.Update(ctx, w.Cids[at(1)], w.Cids[at(2)], at(3) == 1)
+	case "autosync":
+		old := w.P.(interface{ SetAutosync(bool) bool }).SetAutosync(at(1) == 1)
+		w.Store.Log = nil
+		if old {
+			return "was1", nil
+		}
+		return "was0", nil
+	case "flush":
+		err = w.P.Flush(ctx)
 	default:
 		panic("pinh: bad mutation " + f[0])
 	}
@@ -396,6 +405,9 @@ func (w *World) Mutate(f []string) (string, []Write) {
 // determines it (known); the outcome of Update's DiffEnumerate is left open.
 func (w *World) ExpectOK(f []string) (want bool, known bool) {
 	at := func(i int) int { v, _ := strconv.Atoi(f[i]); return v }
+	if f[0] == "autosync" || f[0] == "flush" {
+		return true, true
+	}
 	ctx := f[len(f)-1]
 	_, isR := w.SpecR[at(1)]
 	_, isD := w.SpecD[at(1)]
